@@ -284,6 +284,9 @@ func certainNow(w *vfWorld, user string) bool {
 func genAdminPlan(r *rand.Rand, tier string) *vfPlan {
 	p := &vfPlan{Cfg: vfCfg{TOTP: true, VIP: true, BootstrapOTP: true, PwBackend: "counting", GroupsLDAP: chance(r, 0.8),
 		CertBackends: []string{"U2F", "TOTP"}, WebUIBackends: pick(r, [][]string{{"password"}, {"U2F", "TOTP"}, {"U2F", "TOTP", "password", "SymantecVIP"}, {"U2F"}})}}
+	if p.Cfg.GroupsLDAP && chance(r, 0.3) {
+		p.Cfg.GroupPrepend = "git-" // directory group names are prefixed; the configured admin group carries the prefix
+	}
 	add := func(s vfStep) { p.Steps = append(p.Steps, s) }
 	add(vfStep{Op: "setup_totp", User: "alice"})
 	add(vfStep{Op: "setup_u2f", User: "alice", Target: "tok1"})
@@ -326,8 +329,22 @@ func genAdminPlan(r *rand.Rand, tier string) *vfPlan {
 			add(vfStep{Op: "dir_group", User: "gadmin", A: pick(r, []string{"clear", "remove", "clear"})})
 			add(vfStep{Op: "advance", D: pick(r, []string{"5m2s", "6m", "4m", "20m"})})
 			add(vfStep{Op: "admop", Sess: gs, A: pick(r, []string{"list", "delete", "newotp", "add"}), Target: "carol"})
+		case x < 72:
+			// a demoted group administrator keeps coming back more often than the cache lifetime: it must still end
+			gs := pick(r, sess)
+			add(vfStep{Op: "mintsession", Sess: gs, User: "gadmin", N: int64(pick(r, []int{AuthTypePassword | AuthTypeU2F, AuthTypeU2F}))})
+			add(vfStep{Op: "admop", Sess: gs, A: "list"})
+			add(vfStep{Op: "dir_group", User: "gadmin", A: pick(r, []string{"clear", "remove"})})
+			for k := 0; k < 3+r.IntN(3); k++ {
+				add(vfStep{Op: "advance", D: pick(r, []string{"2m", "3m", "4m"})})
+				add(vfStep{Op: "admop", Sess: gs, A: pick(r, []string{"list", "list", "newotp", "add"}), Target: "carol"})
+			}
 		case x < 76:
 			add(vfStep{Op: "dir_group", User: pick(r, []string{"gadmin", "gadmin", "mallory"}), A: pick(r, []string{"add", "remove", "clear"})})
+			if p.Cfg.GroupPrepend != "" && chance(r, 0.5) {
+				// a directory group whose own name already begins with the configured prefix
+				add(vfStep{Op: "dir_group", User: pick(r, []string{"mallory", "bob"}), A: "add", B: p.Cfg.GroupPrepend + vfAdminGroup})
+			}
 		case x < 82:
 			add(vfStep{Op: "dir_groups_server", A: pick(r, []string{"up", "down", "error", "up"})})
 		case x < 92:
